@@ -45,7 +45,8 @@ deriving Repr, Inhabited
 
 /-- read `n` bytes (`d.FieldRawLen(n*8)`, `d.FieldUTF8(n)`, `d.BytesLen`) -/
 def readN (n : Nat) (bs : Bytes) : Res (Bytes × Bytes) :=
-  if n ≤ bs.length then .ok (bs.take n, bs.drop n) else .err .eof
+  let x := bs.take n          -- (not `n ≤ bs.length`: that would walk the whole remaining input on every read)
+  if x.length = n then .ok (x, bs.drop n) else .err .eof
 
 /-- big-endian value -/
 def beNat (bs : Bytes) : Nat := bs.foldl (fun a b => a * 256 + b.toNat) 0
